@@ -187,6 +187,39 @@ def large_x_cases(ctx):
     return False
 
 
+# derivative orders above 6, where the library still delivers digits: the complex-step rules are documented up to n = 10, central keeps working to
+# n = 9 (forward / backward do not: their errors are of order one from n = 8 on, on the unchanged tree too, and are left out).  Envelope relative
+# to the local scale max_k |f^(k)(x)|, k <= n, calibrated on the unchanged tree over this grid (worst: complex 7.9e-6, 6.3e-5, 1.5e-4, 1.7e-4 for
+# n = 7..10; central 1.3e-5, 3.0e-5, 6.5e-5 for n = 7..9) with a factor 50 .. 100
+ENVELOPE_HIGH = {('complex', 7): 1e-3, ('complex', 8): 3e-3, ('complex', 9): 1e-2, ('complex', 10): 1e-2,
+                 ('central', 7): 1e-3, ('central', 8): 2e-3, ('central', 9): 5e-3}
+
+
+def high_order_cases(ctx):
+    import math
+    import numdifftools as nd
+    fs = {'np.exp(x)': (np.exp, lambda n, x: math.exp(x)),
+          'np.sin(x)': (np.sin, lambda n, x: math.sin(x + n * math.pi / 2)),
+          'np.exp(2*x)': (lambda x: np.exp(2 * x), lambda n, x: 2.0 ** n * math.exp(2 * x)),
+          'x*np.exp(x)': (lambda x: x * np.exp(x), lambda n, x: (x + n) * math.exp(x)),
+          'np.cos(0.5*x)': (lambda x: np.cos(0.5 * x), lambda n, x: 0.5 ** n * math.cos(0.5 * x + n * math.pi / 2))}
+    for (method, n), env in sorted(ENVELOPE_HIGH.items()):
+        for src, (f, d) in fs.items():
+            for x in (0.5, 1.0, 2.0, -1.0, 0.1, -3.0):
+                try:
+                    got = float(nd.Derivative(f, n=n, method=method)(x))
+                except Exception as ex:   # noqa
+                    ctx.violation('raises:%s:%d' % (method, n), 'nd.Derivative(lambda x: %s, n=%d, method=%r)(%r) raises %r' % (src, n, method, x, ex), {'f': src, 'x': x, 'n': n, 'method': method})
+                    continue
+                ctx.count(1, ('high-order', method, n))
+                S = max(abs(d(k, x)) for k in range(0, n + 1))
+                err = abs(got - d(n, x))
+                if not err <= env * S:
+                    if ctx.violation('accuracy-high-order:%s:%d' % (method, n), 'nd.Derivative(lambda x: %s, n=%d, method=%r)(%r) = %r, exact %r (error %.3g, envelope %.3g x local scale %.3g)' % (
+                            src, n, method, x, got, d(n, x), err, env, S), {'f': src, 'x': x, 'n': n, 'method': method, 'got': got, 'exact': d(n, x), 'local_scale': S}):
+                        break
+
+
 def run(ctx):
     import numdifftools as nd
     proof_stage(ctx, ['Props/C01.v', 'Props/C01b.v'])
@@ -257,6 +290,7 @@ def run(ctx):
     ctx.cov['correspondence_disagreements'] = nbad
     ctx.cov['skipped'] = skipped
     large_x_cases(ctx)
+    high_order_cases(ctx)
     sweep(ctx, ctx.n(25, 400) if not ctx.broken else 150)
     ctx.assumptions += ['PARTIAL: proved = exactness of the whole pipeline on estimates of the modelled form (hence on polynomials, via C06/C07/C13) and n = 0; NOT proved = the accuracy envelope for non-polynomial analytic f (explored by the sweep against mpmath Taylor coefficients, with an envelope calibrated on the unchanged tree)',
                         'difference quotients, pinv rows and h**n are recorded from the run (stencils: C05/C06)']
